@@ -50,13 +50,39 @@ func scopeProgram(drv *lib.Driver, dir, src string) ([]scopeOcc, *lib.Session, e
 	return occs, sess, nil
 }
 
+// properties whose programs are also laid out with several statements / blocks on one line
+var scopeCompactProps = map[string]bool{"C06": true, "C11": true, "C12": true}
+
+// compactLayout joins randomly chosen adjacent lines with a space (every statement of the generator starts
+// with a name or a keyword, so the program stays valid): sibling scopes then share a line.
+func compactLayout(r *lib.Rng, src string, oneLine bool) string {
+	lines := strings.Split(strings.TrimSuffix(src, "\n"), "\n")
+	var sb strings.Builder
+	for i, l := range lines {
+		if i == 0 {
+			sb.WriteString(l)
+			continue
+		}
+		if oneLine || r.Chance(3, 5) {
+			sb.WriteString(" " + strings.TrimLeft(l, " "))
+		} else {
+			sb.WriteString("\n" + l)
+		}
+	}
+	return sb.String() + "\n"
+}
+
 func scopePrograms(root *lib.Rng, prop string, n int) []string {
 	var progs []string
 	for _, l := range lib.CorpusLines(prop) {
 		progs = append(progs, strings.ReplaceAll(l, "\\n", "\n"))
 	}
 	for i := 0; i < n; i++ {
-		progs = append(progs, genScopeProgram(root.Fork(uint64(i))))
+		src := genScopeProgram(root.Fork(uint64(i)))
+		if scopeCompactProps[prop] && i%4 == 3 {
+			src = compactLayout(root.Fork(uint64(5000000+i)), src, i%8 == 7)
+		}
+		progs = append(progs, src)
 	}
 	return progs
 }
